@@ -530,6 +530,78 @@ func dischargeIndex(p *core.Program, s *indexSite) (string, bool) {
 	if descendingDelete(fn, s) {
 		return "descending in-place filter loop", true
 	}
+	plusOneOfIndex := func(v ssa.Value) bool {
+		b, ok := v.(*ssa.BinOp)
+		if !ok || b.Op != token.ADD {
+			return false
+		}
+		one, okc := ir.ConstInt(b.Y)
+		if !okc || one != 1 {
+			return false
+		}
+		_, same := idxLike(v)
+		return same // strings.(Last)Index*(x, …)+1 ∈ [0, len(x)] whatever was found
+	}
+	if s.lo != nil && plusOneOfIndex(s.lo) {
+		okLo = true
+	}
+	if s.hi != nil && plusOneOfIndex(s.hi) {
+		okHi = true
+	}
+	// a position found by a search loop over the same slice, −1 when absent, used only after `pos < 0 → leave`
+	foundPos := func(v ssa.Value) bool {
+		ph, ok := v.(*ssa.Phi)
+		if !ok {
+			return false
+		}
+		for _, e := range ph.Edges {
+			if k, okc := ir.ConstInt(e); okc {
+				if k >= 0 {
+					return false
+				}
+				continue
+			}
+			// induction variable of a loop bounded by len of the same slice
+			bounded := false
+			for _, ii := range ir.Ifs(fn) {
+				a := ii.Atom
+				if a.V != nil || a.Op != token.LSS || a.X != e {
+					continue
+				}
+				if c, isC := a.Y.(*ssa.Call); isC && ir.CallName(c.Common()) == "builtin.len" && ir.Path(c.Call.Args[0]) == ir.Path(s.x) && isInduction(e) {
+					bounded = true
+				}
+			}
+			if !bounded {
+				return false
+			}
+		}
+		_, g := ir.GuardedBy(fn, ir.Entry(fn), s.in, false, func(a ir.Atom) bool {
+			if a.V != nil || a.Op != token.LSS || a.X != v {
+				return false
+			}
+			z, okc := ir.ConstInt(a.Y)
+			return okc && z == 0
+		})
+		return g
+	}
+	posOrNext := func(v ssa.Value) bool {
+		if foundPos(v) {
+			return true
+		}
+		if b, ok := v.(*ssa.BinOp); ok && b.Op == token.ADD {
+			if one, okc := ir.ConstInt(b.Y); okc && one == 1 && foundPos(b.X) {
+				return true
+			}
+		}
+		return false
+	}
+	if s.lo != nil && posOrNext(s.lo) {
+		okLo = true
+	}
+	if s.hi != nil && posOrNext(s.hi) {
+		okHi = true
+	}
 	if s.lo != nil {
 		if base, ok := idxLike(s.lo); ok && notMinusOne(fn, s.in, base) {
 			okLo = true
@@ -1012,9 +1084,11 @@ func ruleLoopProgress(r *core.Reporter) {
 			if cc, isC := arg.(*ssa.Call); isC && ir.IsCallTo(cc, "(*github.com/gabriel-vasile/mimetype.MIME).Parent") {
 				okArg = true
 			}
-			// tree recursion over children (models)
-			if strings.Contains(ir.Path(arg), "GetChildren()") || strings.Contains(ir.Path(arg), ".children") || strings.Contains(ir.Path(arg), ".parent") {
-				okArg = true
+			// tree recursion over children (models): some argument descends to a child (or climbs to the parent) of a node
+			for _, a := range c.Call.Args {
+				if pa := ir.Path(a); strings.Contains(pa, "GetChildren()") || strings.Contains(pa, ".children") || strings.Contains(pa, ".parent") {
+					okArg = true
+				}
 			}
 			ord++
 			key := fmt.Sprintf("%s/recursion#%d", core.FuncName(fn), ord)
